@@ -17,7 +17,7 @@ CASE_BUDGET_S = 900
 META = {
     "rule": "all 154 polynomials of U0 (0-d) x a value band of 26 argument values per indeterminate (Python int incl. negative "
             "and >2**16, bool, float, complex, numpy scalars of all 13 dtypes) in 3 diagonals, all value PAIRS for a 12-polynomial "
-            "subset; every call form (positional / keyword / None placeholders / missing trailing arguments) x 3 value kinds; "
+            "subset (each pair also by keyword in both orders and staged); every call form (positional / keyword / None placeholders / missing trailing arguments) x 3 value kinds; three names with every keyword order x mixed argument types; "
             "array arguments of shapes () (2) (3) (2,1,3) broadcasting among themselves x polynomial arrays of 4 shapes x 3 "
             "representations; polynomial-valued arguments (swap q0<->q1, q1+1, constants, arrays); staged evaluation in both "
             "orders; unknown and doubly supplied names. Oracle: exact substitution in the model. distinct = (polynomial, "
@@ -181,13 +181,25 @@ def run_case(case, R):
                 continue
             judge_numeric(R, f"{u[case['i']]}({va!r}:{ka}, {vb!r}:{kb})", lambda: p(va, vb), exp, (), vtag(ka, va) + vtag(kb, vb),
                           {"k": "one", "i": case["i"], "ia": ia, "ib": ib})
+            # the same assignment by keyword, in the order of the names and against it
+            judge_numeric(R, f"{u[case['i']]}(q1={vb!r}:{kb}, q0={va!r}:{ka})", lambda: p(q1=vb, q0=va), exp, (), vtag(ka, va) + vtag(kb, vb) + ["form=keywords-reversed"],
+                          {"k": "one", "i": case["i"], "ia": ia, "ib": ib})
+            if k == "pairs":
+                judge_numeric(R, f"{u[case['i']]}(q0={va!r}:{ka}, q1={vb!r}:{kb})", lambda: p(q0=va, q1=vb), exp, (), vtag(ka, va) + vtag(kb, vb) + ["form=keywords"],
+                              {"k": "one", "i": case["i"], "ia": ia, "ib": ib})
+                judge_numeric(R, f"{u[case['i']]}(None, {vb!r}:{kb})(q0={va!r}:{ka})", lambda: stage(p(None, vb), q0=va), exp, (), vtag(ka, va) + vtag(kb, vb) + ["form=staged"],
+                              {"k": "one", "i": case["i"], "ia": ia, "ib": ib})
         R.sample({"polynomial": str(p), "values": [repr(v) for _, v in vals[:6]] + ["..."]})
     elif k == "one":
         u = space.U0()
         sp = space.scalar_spec(names, u[case["i"]])
         p, m = build_checked(sp), model_of(sp)
         (ka, va), (kb, vb) = vals[case["ia"]], vals[case["ib"]]
-        judge_numeric(R, "one", lambda: p(va, vb), m.subs({"q0": V.const(va), "q1": V.const(vb)}), (), vtag(ka, va) + vtag(kb, vb))
+        exp1 = m.subs({"q0": V.const(va), "q1": V.const(vb)})
+        judge_numeric(R, "one", lambda: p(va, vb), exp1, (), vtag(ka, va) + vtag(kb, vb))
+        judge_numeric(R, "one keywords reversed", lambda: p(q1=vb, q0=va), exp1, (), vtag(ka, va) + vtag(kb, vb) + ["form=keywords-reversed"])
+        judge_numeric(R, "one keywords", lambda: p(q0=va, q1=vb), exp1, (), vtag(ka, va) + vtag(kb, vb) + ["form=keywords"])
+        judge_numeric(R, "one staged", lambda: stage(p(None, vb), q0=va), exp1, (), vtag(ka, va) + vtag(kb, vb) + ["form=staged"])
     elif k == "forms":
         u = space.U0()
         sp = space.scalar_spec(names, u[case["i"]])
@@ -323,10 +335,12 @@ def run_case(case, R):
         for t in pool:
             sp = space.scalar_spec(names3, t)
             p, m = build_checked(sp), model_of(sp)
-            for a, b, c in itertools.product([-1, 2, 0.5], [3, numpy.int8(-2)], [1, -1.5, 1j]):
+            for a, b, c in itertools.product([-1, 2, 0.5, numpy.int16(-3)], [3, numpy.int8(-2), -2], [1, -1.5, 1j, numpy.uint8(5)]):
                 exp = m.subs({"q0": V.const(a), "q2": V.const(b), "q10": V.const(c)})
                 judge_numeric(R, f"{t}({a},{b},{c})", lambda: p(a, b, c), exp, (), ["three"])
-                judge_numeric(R, f"{t}(q10={c},q0={a},q2={b})", lambda: p(q10=c, q0=a, q2=b), exp, (), ["three"])
+                for order in itertools.permutations((("q0", a), ("q2", b), ("q10", c))):
+                    kw = dict(order)
+                    judge_numeric(R, f"{t}({', '.join(f'{n}={v!r}' for n, v in order)})", lambda: p(**kw), exp, (), ["three", "form=keywords-permuted"])
                 judge_numeric(R, f"{t}(q10={c})(q0={a})(q2={b})", lambda: stage(stage(p(q10=c), q0=a), q2=b), exp, (), ["three", "staged"])
                 judge_poly(R, f"{t}(None,{b})", lambda: p(None, b), m.subs({"q2": V.const(b)}), ["three", "partial"])
             R.state(("three", str(t)))
